@@ -9,4 +9,29 @@ from __future__ import annotations
 
 from typing import Any, Callable
 
-PREDICATES: dict[str, Callable[[dict[str, Any], dict[str, Any]], bool]] = {}
+
+
+def neox_clip_scale_local(plan: dict[str, Any], v: dict[str, Any]) -> bool:
+    """GPT-NeoX: the KL-clip scale is computed from the rank-local partial
+    inner product (its model-parallel shard, its pipeline stage).
+
+    Matches only violations the oracle has positively explained that way:
+    every shard equals nu_local * V with nu_local the clip formula applied
+    to the rank's own inner product (oracle_neox._train_stage), or the
+    per-stage scales differ from the scale over all stages.
+    """
+    if plan.get('kind') != 'neox':
+        return False
+    kl = plan['hps']['kl_clip']
+    if 'c' in kl and kl['c'] is None:
+        return False
+    if v['clause'] == 'C11.clip_scale_is_rank_local':
+        return plan['model'] > 1 and v.get('mp') == plan['model']
+    if v['clause'] == 'C07.clip_scale_is_stage_local':
+        return plan['pipe'] > 1
+    return False
+
+
+PREDICATES: dict[str, Callable[[dict[str, Any], dict[str, Any]], bool]] = {
+    'neox_clip_scale_local': neox_clip_scale_local,
+}
